@@ -141,12 +141,19 @@ Layout(l) ==
     [] l = 3 -> << Range(0, 8), [i \in 1..9 |-> Q(2 * i - 1, 2)] >>     \* the traces cover different ranges: 0..8, 1/2..17/2
     [] l = 4 -> << Range(2, 12), Range(2, 12) >>                          \* does not start at 0
     [] l = 5 -> << Range(-8, -2), Range(-8, -2) >>                        \* all positions negative
-LayA(l) == CASE l = 4 -> 2 [] l = 5 -> -8 [] OTHER -> 0
-LayB(l) == CASE l = 1 -> 8 [] l = 2 -> 6 [] l = 3 -> 8 [] l = 4 -> 12 [] l = 5 -> -2
+    \* far from 0, rows that are NEARLY equal (1/128 apart at x ~ 1000: 8e-6 relative), exactly equal, clearly different
+    [] l = 6 -> << Range(1000, 1008), [i \in 1..9 |-> Q(128 * (999 + i) + 1, 128)], Range(1000, 1008),
+                   [i \in 1..9 |-> Q(2 * (999 + i) + 1, 2)] >>
+    \* positions whose SUM does not fit the narrow integer type they may be handed over in (uint8: 124 + 132; int16: 2 * 30000)
+    [] l = 7 -> << Range(124, 132), Range(124, 132) >>
+    [] l = 8 -> << Range(30000, 30008) >>
+LayA(l) == CASE l = 4 -> 2 [] l = 5 -> -8 [] l = 6 -> 1000 [] l = 7 -> 124 [] l = 8 -> 30000 [] OTHER -> 0
+LayB(l) == CASE l = 1 -> 8 [] l = 2 -> 6 [] l = 3 -> 8 [] l = 4 -> 12 [] l = 5 -> -2 [] l = 6 -> 1008 [] l = 7 -> 132 [] l = 8 -> 30008
 (* the limits: 1 neither supplied; 2 both, one beyond the data on each side; 3 both, not integers; and the     *)
 (* zero-valued ones, placed so that 0 is NOT what the positions would give: 4 xmin = 0 only (data start above *)
 (* 0); 5 xmax = 0 only (data all negative); 6 xmin = 0 and xmax both; 7 xmin and xmax = 0 both                *)
-MinMaxOK(mm, l) == CASE mm \in {4, 6} -> LayA(l) > 0 [] mm \in {5, 7} -> LayB(l) < 0 [] OTHER -> TRUE
+(* (not on layouts 6 and 8: the ranges 0..1008 with 1/128 steps and 0..30008 do not fit 32 bits) *)
+MinMaxOK(mm, l) == CASE mm \in {4, 6} -> (LayA(l) > 0 /\ l \notin {6, 8}) [] mm \in {5, 7} -> LayB(l) < 0 [] OTHER -> TRUE
 NMinMax == 7
 (* jump kinds: none; narrow inside; wide inside with a negative value; wholly below the     *)
 (* data; wholly above; straddling the upper end; 7-11: zero / negative / edge parameters    *)
@@ -202,6 +209,7 @@ TsExpected(t) ==
       yign |-> TsEval(t, co, t.xpos, NoJump)]
 
 TsSeed(b, nc, l) == [kind |-> "seed", fam |-> "tset", basis |-> b, nc |-> nc, lay |-> l]
+TsMaxNc(l) == IF l = 6 THEN 3 ELSE 4          \* (squares of 1/128 steps at x ~ 1000 are the largest numbers that fit)
 TsStep ==
   /\ c.kind = "seed" /\ c.fam = "tset"
   /\ \E ci \in 1..2 : \E jk \in 1..NJump : \E mm \in 1..NMinMax : \E wv \in 1..4 : \E nz \in 0..1 :
@@ -229,7 +237,7 @@ RootStep ==
           c' = FitSeed("general", b, nc, xid)
      \/ "history" \in Families /\ \E b \in Bases : \E nc \in 2..3 : \E xid \in HIds : c' = FitSeed("history", b, nc, xid)
      \/ "zerow" \in Families /\ \E b \in Bases : \E nc \in MinM(b)..4 : \E xid \in ZIds : c' = FitSeed("zerow", b, nc, xid)
-     \/ "tset" \in Families /\ \E b \in PolyBases : \E nc \in 1..4 : \E l \in Lays : c' = TsSeed(b, nc, l)
+     \/ "tset" \in Families /\ \E b \in PolyBases : \E l \in Lays : \E nc \in 1..TsMaxNc(l) : c' = TsSeed(b, nc, l)
 
 Init == c = Root /\ exp = None
 Next == RootStep \/ BasisStep \/ SweepStep \/ MasksStep \/ ZeroStep \/ GeneralStep \/ HistStep \/ TsStep
@@ -291,5 +299,8 @@ C13_FitThenEvaluate == IsTset => TsEval(c, exp.coeff, c.xpos, c.jump) = exp.yfit
 C13_XNormLaws == IsTset => \A k \in 1..Len(c.xpos) : \A i \in 1..Len(c.xpos[k]) :
                     XNormLaws(c.xpos[k][i], exp.xmin, exp.xmax, c.jump)
 C13_GridLaws == IsTset => (GridLaws(exp.xmin, exp.xmax) /\ exp.grid = DefaultGrid(exp.xmin, exp.xmax))
+(* every row of an evaluation depends only on that row's positions and that trace's coefficients: evaluating the *)
+(* traces together is evaluating each alone (nearly equal rows are still different rows)                         *)
+C13_RowIndependence == IsTset => (RowIndependent(c, exp.coeff, c.xpos, c.jump) /\ exp.yfit = TsEval(c, exp.coeff, c.xpos, c.jump))
 C13_IgnoreJump == (IsTset /\ ~c.jump.on) => exp.yign = exp.yfit
 =============================================================================
